@@ -610,9 +610,9 @@ Proof.
       destruct (partition _ (g_subs s)) as [a bb], (partition _ (g_subs s')) as [a' bb']. cbn [fst snd] in *.
       rewrite <- H16, <- H17.
       unfold same_but_subs. cbn. repeat split; try assumption; try congruence. now apply Permutation_app.
-  - unfold feed_ts. unfold same_but_subs. cbn. rewrite <- H2, <- H6, <- H7.
+  - unfold feed_ts. unfold same_but_subs. cbn. rewrite <- H2, <- H6, <- H7, <- H13, <- H17.
     repeat split; try assumption; try congruence. now apply Permutation_map.
-  - unfold same_but_subs. cbn. rewrite <- H3. repeat split; try assumption; try congruence. now apply Permutation_map.
+  - unfold same_but_subs. cbn. rewrite <- H3, <- H13, <- H17. repeat split; try assumption; try congruence. now apply Permutation_map.
   - unfold same_but_subs. cbn. rewrite <- Hs2. repeat split; try assumption; try congruence. now apply Permutation_map.
   - unfold same_but_subs, set_subs. cbn. rewrite <- H10. repeat split; try assumption; try congruence. now apply Permutation_map.
   - unfold feed_rtp, same_but_subs. cbn. rewrite <- H14, <- H15, <- Hs1.
